@@ -362,7 +362,7 @@ pub fn run_c13(tier: Tier) -> i32 {
     // (the thorough tier runs hundreds of millions of distinct descriptions: the sets of distinct states /
     // outcomes are capped there - the counts become lower bounds, which the evidence says - so that
     // they do not take tens of gigabytes)
-    let cfg = Config { max_wall: std::time::Duration::from_secs(tier.pick(60, 1800)), set_cap: tier.pick(40_000_000, 3_000_000), ..Default::default() };
+    let cfg = Config { max_wall: std::time::Duration::from_secs(tier.pick(60, 600)), set_cap: tier.pick(40_000_000, 3_000_000), ..Default::default() };
     let all = LAYOUTS.to_vec();
     let g = |max_members, max_fields, type_budget, comments, layouts: &[Layout], iface_names| Gen { max_members, max_fields, type_budget, comments, variant_comments: comments == 1, layouts: layouts.to_vec(), iface_names, rotate: false, wide: false };
     let four = [Layout::Minimal, Layout::Spaced, Layout::NewlinesTabs, Layout::Crlf];
@@ -376,7 +376,10 @@ pub fn run_c13(tier: Tier) -> i32 {
         ],
         Tier::Thorough => vec![
             ("positives/<=3members,<=1field,budget1/4-layouts", g(3, 1, 1, 0, &four, 1)),
-            ("positives/<=2members,<=2fields,budget2/2-layouts", g(2, 2, 2, 0, &[Layout::Minimal, Layout::NewlinesTabs], 1)),
+            // (two members with two fields each and composite types are ~10^9 texts per layout: the
+            // product is taken at budget 0, the composite types with one member or one field)
+            ("positives/<=2members,<=2fields,budget0/4-layouts", g(2, 2, 0, 0, &four, 1)),
+            ("positives/<=1member,<=2fields,budget2/4-layouts", g(1, 2, 2, 0, &four, 1)),
             ("positives/<=1member,<=2fields,budget3/2-layouts", g(1, 2, 3, 0, &[Layout::Spaced, Layout::Crlf], 1)),
             ("positives/comments/<=2members,<=1field,budget1", g(2, 1, 1, 1, &[Layout::Lines], 1)),
             ("positives/names/<=1member,<=2fields,budget1/5-layouts", g(1, 2, 1, 0, &all, 6)),
@@ -400,7 +403,7 @@ pub fn run_c13(tier: Tier) -> i32 {
         ],
         Tier::Thorough => vec![
             ("mutants/<=2members,<=1field,budget1/spaced+minimal", g(2, 1, 1, 0, &[Layout::Spaced, Layout::Minimal], 1)),
-            ("mutants/<=1member,<=2fields,budget2/spaced", g(1, 2, 2, 0, &[Layout::Spaced], 1)),
+            ("mutants/<=1member,<=2fields,budget1/spaced", g(1, 2, 1, 0, &[Layout::Spaced], 1)),
             ("mutants/<=2members,<=1field,budget0/lines+comments,crlf", g(2, 1, 0, 1, &[Layout::Lines, Layout::Crlf], 2)),
         ],
     };
@@ -611,7 +614,7 @@ pub fn run_c14(tier: Tier) -> i32 {
     // (the thorough tier runs hundreds of millions of distinct descriptions: the sets of distinct states /
     // outcomes are capped there - the counts become lower bounds, which the evidence says - so that
     // they do not take tens of gigabytes)
-    let cfg = Config { max_wall: std::time::Duration::from_secs(tier.pick(60, 1800)), set_cap: tier.pick(40_000_000, 3_000_000), ..Default::default() };
+    let cfg = Config { max_wall: std::time::Duration::from_secs(tier.pick(60, 600)), set_cap: tier.pick(40_000_000, 3_000_000), ..Default::default() };
     let g = |max_members, max_fields, type_budget, comments, iface_names| Gen { max_members, max_fields, type_budget, comments, variant_comments: comments == 1, layouts: vec![if comments == 1 { Layout::Lines } else { Layout::Spaced }], iface_names, rotate: false, wide: false };
     let plan: Vec<(&str, RoundTrip)> = match tier {
         Tier::Quick => vec![
@@ -624,11 +627,11 @@ pub fn run_c14(tier: Tier) -> i32 {
         ],
         Tier::Thorough => vec![
             ("plain/<=3members,<=1field,budget1", RoundTrip { gen: g(3, 1, 1, 0, 2), exchange: false }),
-            ("plain/<=2members,<=2fields,budget2", RoundTrip { gen: g(2, 2, 2, 0, 1), exchange: false }),
+            ("plain/<=2members,<=2fields,budget0", RoundTrip { gen: g(2, 2, 0, 0, 1), exchange: false }),
+            ("plain/<=1member,<=2fields,budget2", RoundTrip { gen: g(1, 2, 2, 0, 1), exchange: false }),
             ("plain/<=1member,<=2fields,budget3", RoundTrip { gen: g(1, 2, 3, 0, 1), exchange: false }),
             ("comments/<=2members,<=1field,budget1", RoundTrip { gen: g(2, 1, 1, 1, 1), exchange: false }),
             ("comments/<=1member,<=3fields,budget0", RoundTrip { gen: g(1, 3, 0, 1, 1), exchange: false }),
-            ("comments/<=2members,<=2fields,budget0", RoundTrip { gen: g(2, 2, 0, 1, 1), exchange: false }),
             ("exchange/<=2members,<=1field,budget1+comments", RoundTrip { gen: g(2, 1, 1, 1, 2), exchange: true }),
         ],
     };
